@@ -136,7 +136,7 @@ def shards(tier):
     s = [{"kind": "exhaustive", "first": [i], "depth": depth} for i in range(len(ALPHABET))]
     n = 12
     for i in range(n):
-        s.append({"kind": "hyp", "n": 60 if tier == "quick" else 700, "max_ops": 25 if (tier == "quick" or i % 2 == 0) else 60})
+        s.append({"kind": "hyp", "n": 150 if tier == "quick" else 1500, "max_ops": 25 if (tier == "quick" or i % 2 == 0) else 60})
     return s
 
 
@@ -154,7 +154,7 @@ def run_shard(spec, ctx):
 
 
 def replay(sub, case, ctx):
-    configs = MEM if case.get("config", "").startswith("mem") and all(o in ALPHABET for o in case["ops"]) else None
+    configs = MEM if (case.get("config") or "").startswith("mem") and all(o in ALPHABET for o in case["ops"]) else None
     ls = lockstep.Lockstep(ctx, configs=configs)
     ls.step_hooks = [eq_hook]
     try:
